@@ -6,6 +6,7 @@ CONSTANTS
   MaxInst = 0
   NZ = 2
   MaxReq = 3
+  MaxPureTaken = 8
   NForeign = 1
   CJ = FALSE
 INIT Init
